@@ -147,7 +147,8 @@ impl<'h> FindMatchesImpl<'h> {
             return;
         }
         let end = matched.span().end;
-        self.advance_to(end);
+        // The span of the match is still relative to the offset here.
+        self.advance_to_relative(end);
     }
 
     /// Advances the given char_indices iterator to the end of the given match.
@@ -173,6 +174,13 @@ impl<'h> FindMatchesImpl<'h> {
     /// If the new position is less than the current position of the char_indices iterator, the
     /// function returns the current position of the char_indices iterator.
     pub(crate) fn advance_to(&mut self, position: usize) -> usize {
+        // Matches carry positions relative to the start of the haystack, whereas the
+        // char_indices iterator is relative to the offset set by `set_offset`/`with_offset`.
+        self.advance_to_relative(position.saturating_sub(self.offset))
+    }
+
+    /// Advance the char_indices iterator to the given position relative to the current offset.
+    fn advance_to_relative(&mut self, position: usize) -> usize {
         if position < self.last_position {
             // The new position is less than the current position of the char_indices iterator.
             // The iterator is advanced by one character and the next character is not returned by
